@@ -68,6 +68,15 @@ def documents(rng, n, depth=4, deep_every=25, f32=False):
                     out.append((fmt, v, t))
             except Exception:
                 continue
+    # YAML whose last node keeps its trailing line breaks (keep chomping), ended by the end of the stream, by the next
+    # document and by an explicit end marker; the value is whatever the independent reader says it is
+    for t in (b"k: |+\n  y\n\n\n", b"- >+\n  z\n\n", b"s: |+\n  x\n\n\n\n...\n", b"a: |-\n  t\n\n\nb: |+\n  u\n\n"):
+        try:
+            back = gen.read_documents(t, "yaml")
+            if len(back) == 1:
+                out.append(("yaml", back[0], t))
+        except Exception:
+            continue
     # collections longer than any 16-bit length field or pre-allocation cap
     for fmt in ("msgpack", "json"):
         for v in ({"arr": [i % 10 for i in range(40000)]}, {"m": {"k%d" % i: i % 3 for i in range(33000)}}):
